@@ -96,6 +96,7 @@ static void setkind(int fd, char k) { if (fd >= 0 && fd < MAXFD) fdkind[fd] = (u
 
 static _Atomic unsigned occ[S_N][K_N];
 static _Atomic unsigned nalloc;
+static int atom_mode, atom_live, atom_block_writes;   /* per-operation runs: faults and counting only inside the measured call */
 static _Atomic int armed;                 /* faults and counting active (scenario running, not a forked grandchild) */
 static __thread int quiet_depth;          /* harness-own activity on this thread */
 #define MAXF 64
@@ -114,7 +115,7 @@ static int is_transfer(int s) {
 /* returns the errno to inject for this occurrence of call s on descriptor fd, or 0 */
 static int inject(int s, int fd) {
   unsigned n; int k, i;
-  if (!atomic_load(&armed) || quiet_depth) return 0;
+  if (!atomic_load(&armed) || quiet_depth || (atom_mode && !atom_live)) return 0;
   k = kidx(fd);
   n = atomic_fetch_add(&occ[s][k], 1) + 1;
   for (i = 0; i < nflt; i++)
@@ -185,7 +186,7 @@ static int live_del(void* p) {
 }
 static int alloc_fails(void) {
   unsigned n; int i;
-  if (!atomic_load(&armed) || quiet_depth) return 0;
+  if (!atomic_load(&armed) || quiet_depth || (atom_mode && !atom_live)) return 0;
   n = atomic_fetch_add(&nalloc, 1) + 1;
   for (i = 0; i < naflt; i++)
     if (aflt[i].lo <= n && n <= aflt[i].hi) {
@@ -215,12 +216,13 @@ static void* c_realloc(void* p, size_t n) {
 /* ------------------------------------------------------------------ interposers */
 static char kind_of_newfd = 0;
 ssize_t read(int fd, void* b, size_t n) { INJ(S_read, fd); return RAW(SYS_read, fd, b, n); }
-ssize_t write(int fd, const void* b, size_t n) { INJ(S_write, fd); return RAW(SYS_write, fd, b, n); }
+#define BLOCKW(fd) do { if (atom_live && atom_block_writes && kidx(fd) == 1) { errno = EAGAIN; return -1; } } while (0)
+ssize_t write(int fd, const void* b, size_t n) { BLOCKW(fd); INJ(S_write, fd); return RAW(SYS_write, fd, b, n); }
 ssize_t readv(int fd, const struct iovec* v, int n) { INJ(S_readv, fd); return RAW(SYS_readv, fd, v, n); }
-ssize_t writev(int fd, const struct iovec* v, int n) { INJ(S_writev, fd); return RAW(SYS_writev, fd, v, n); }
+ssize_t writev(int fd, const struct iovec* v, int n) { BLOCKW(fd); INJ(S_writev, fd); return RAW(SYS_writev, fd, v, n); }
 ssize_t pread(int fd, void* b, size_t n, off_t o) { INJ(S_pread, fd); return RAW(SYS_pread64, fd, b, n, o); }
 ssize_t pwrite(int fd, const void* b, size_t n, off_t o) { INJ(S_pwrite, fd); return RAW(SYS_pwrite64, fd, b, n, o); }
-ssize_t sendmsg(int fd, const struct msghdr* m, int fl) { INJ(S_sendmsg, fd); return RAW(SYS_sendmsg, fd, m, fl); }
+ssize_t sendmsg(int fd, const struct msghdr* m, int fl) { BLOCKW(fd); INJ(S_sendmsg, fd); return RAW(SYS_sendmsg, fd, m, fl); }
 ssize_t recvmsg(int fd, struct msghdr* m, int fl) {
   ssize_t r; INJ(S_recvmsg, fd); r = RAW(SYS_recvmsg, fd, m, fl);
   if (r >= 0 && m->msg_controllen > 0) {       /* descriptors received over a unix socket */
@@ -233,7 +235,7 @@ ssize_t recvmsg(int fd, struct msghdr* m, int fl) {
   }
   return r;
 }
-int sendmmsg(int fd, struct mmsghdr* v, unsigned n, int fl) { INJ(S_sendmmsg, fd); return RAW(SYS_sendmmsg, fd, v, n, fl); }
+int sendmmsg(int fd, struct mmsghdr* v, unsigned n, int fl) { BLOCKW(fd); INJ(S_sendmmsg, fd); return RAW(SYS_sendmmsg, fd, v, n, fl); }
 int recvmmsg(int fd, struct mmsghdr* v, unsigned n, int fl, struct timespec* t) { INJ(S_recvmmsg, fd); return RAW(SYS_recvmmsg, fd, v, n, fl, t); }
 int accept4(int fd, struct sockaddr* a, socklen_t* l, int fl) { int r; INJ(S_accept4, fd); r = RAW(SYS_accept4, fd, a, l, fl); setkind(r, 's'); return r; }
 int connect(int fd, const struct sockaddr* a, socklen_t l) { INJ(S_connect, fd); return RAW(SYS_connect, fd, a, l); }
@@ -987,6 +989,158 @@ static void sc_os(void) {
   len = sizeof buf; r = uv_get_process_title(buf, len); OUT("A uv_get_process_title %s", en(r));
 }
 
+
+/* ================================================================== per-operation fault atomicity (model: lean/UvModel/Fault.lean)
+ * `atom:<op>:<p1>:<p2>`: set the stage without faults, then measure exactly one API call: return code and the deltas
+ * of loop->active_reqs.count, live allocator blocks, open descriptors, loop->active_handles, kernel inotify watches.
+ * Printed in the format of `uvdriver c16ops`; afterwards the ordinary monitors run on the cleanup. */
+static char atom_spec[128];
+static long count_fds(void) { char b[8192]; long n = 0; fd_snapshot(b, sizeof b); for (char* p = b; *p; p++) if (*p == '=') n++; return n; }
+static long count_watches(void) {
+  char path[64], buf[8192]; long n = 0, r; int fd;
+  if (loop->inotify_fd < 0) return 0;
+  snprintf(path, sizeof path, "/proc/self/fdinfo/%d", loop->inotify_fd);
+  fd = (int) RAW(SYS_openat, AT_FDCWD, path, O_RDONLY | O_CLOEXEC, 0);
+  if (fd < 0) return 0;
+  r = RAW(SYS_read, fd, buf, sizeof buf - 1); RAW(SYS_close, fd);
+  if (r <= 0) return 0;
+  buf[r] = 0;
+  for (char* p = buf; (p = strstr(p, "inotify wd:")) != NULL; p += 5) n++;
+  return n;
+}
+static struct { long reqs, mem, fds, handles, watches; } at0;
+static void atom_begin(int block_writes) {
+  unsigned s, k;
+  at0.reqs = loop->active_reqs.count; at0.mem = nlive; at0.fds = count_fds(); at0.handles = loop->active_handles; at0.watches = count_watches();
+  for (s = 0; s < S_N; s++) for (k = 0; k < K_N; k++) atomic_store(&occ[s][k], 0);
+  atomic_store(&nalloc, 0);
+  atom_block_writes = block_writes; atom_live = 1;
+}
+static int atom_end(int rc) {
+  atom_live = 0;
+  OUT("O rc=%d reqs=%ld mem=%ld fds=%ld handles=%ld watches=%ld", rc < 0 ? rc : 0, (long) loop->active_reqs.count - at0.reqs,
+      (long) nlive - at0.mem, count_fds() - at0.fds, (long) loop->active_handles - at0.handles, count_watches() - at0.watches);
+  A_("atom-op", rc, 0);
+  return rc;
+}
+static void at_write_cb(uv_write_t* r, int st) { got[Q_write]++; free(r); (void) st; }
+static void at_udp_cb(uv_udp_send_t* r, int st) { got[Q_udp_send]++; free(r); (void) st; }
+static void at_fs_cb(uv_fs_t* r) { got[Q_fs]++; uv_fs_req_cleanup(r); free(r); }
+static void at_work(uv_work_t* w) { (void) w; }
+/* the single pool thread is parked while an asynchronous call is measured, so that what the worker frees
+ * (e.g. the heap copy of the bufs in uv__fs_read) does not race with the observation */
+static uv_sem_t at_gate; static int at_parked;
+static void at_park_work(uv_work_t* w) { (void) w; uv_sem_wait(&at_gate); }
+static void at_after(uv_work_t* w, int st);
+static void at_park(void) {
+  uv_work_t* w = NEW(uv_work_t);
+  uv_sem_init(&at_gate, 0);
+  if (uv_queue_work(loop, w, at_park_work, at_after) == 0) { owed[Q_work]++; at_parked = 1; } else free(w);
+}
+static void at_unpark(void) { if (at_parked) { uv_sem_post(&at_gate); at_parked = 0; } }
+static void at_after(uv_work_t* w, int st) { got[Q_work]++; free(w); (void) st; }
+static void at_gai_cb(uv_getaddrinfo_t* r, int st, struct addrinfo* ai) { got[Q_gai]++; free(r); if (st == 0) uv_freeaddrinfo(ai); }
+static void at_exit_cb(uv_process_t* p, int64_t st, int sig) { (void) st; (void) sig; hclose(p); }
+static void at_fe_cb(uv_fs_event_t* h, const char* n, int ev, int st) { (void) h; (void) n; (void) ev; (void) st; }
+static void at_fp_cb(uv_fs_poll_t* h, int st, const uv_stat_t* a, const uv_stat_t* b) { (void) h; (void) st; (void) a; (void) b; }
+static void at_udp_recv(uv_udp_t* h, ssize_t n, const uv_buf_t* b, const struct sockaddr* a, unsigned f) { (void) h; (void) n; (void) b; (void) a; (void) f; }
+static void sc_atom(void) {
+  char op[32] = ""; int p1 = 0, p2 = 0, rc, i; char sp[128]; char* t;
+  uv_buf_t bufs[8]; static char rb[8][4];
+  snprintf(sp, sizeof sp, "%s", atom_spec);
+  t = strtok(sp, ":"); if (t) snprintf(op, sizeof op, "%s", t);
+  t = strtok(NULL, ":"); if (t) p1 = atoi(t);
+  t = strtok(NULL, ":"); if (t) p2 = atoi(t);
+  for (i = 0; i < 8; i++) bufs[i] = uv_buf_init(rb[i], 4);
+  if (!strcmp(op, "write2")) {
+    uv_os_sock_t fds[2]; uv_pipe_t* a = NEW(uv_pipe_t); uv_write_t* w = NEW(uv_write_t);
+    uv_socketpair(SOCK_STREAM, 0, fds, UV_NONBLOCK_PIPE, UV_NONBLOCK_PIPE);
+    uv_pipe_init(loop, a, 0); uv_pipe_open(a, fds[0]);
+    atom_begin(1);
+    rc = atom_end(uv_write2(w, (uv_stream_t*) a, bufs, p1, NULL, at_write_cb));
+    if (rc) free(w); else owed[Q_write]++;
+    RAW(SYS_close, fds[1]);
+  } else if (!strcmp(op, "udp_send")) {
+    uv_udp_t* u = NEW(uv_udp_t); uv_udp_send_t* r = NEW(uv_udp_send_t); struct sockaddr_in sa;
+    uv_udp_init(loop, u); uv_ip4_addr("127.0.0.1", 0, &sa); uv_udp_bind(u, (struct sockaddr*) &sa, 0);
+    if (p2) uv_udp_recv_start(u, alloc_cb, at_udp_recv);
+    uv_ip4_addr("127.0.0.1", 9, &sa);
+    atom_begin(1);
+    rc = atom_end(uv_udp_send(r, u, bufs, p1, (struct sockaddr*) &sa, at_udp_cb));
+    if (rc) free(r); else owed[Q_udp_send]++;
+  } else if (!strcmp(op, "fs")) {          /* p1 = async, p2 = 0 none / 1 path / 2 bufs */
+    uv_fs_t* r = NEW(uv_fs_t); char path[300]; int fd;
+    snprintf(path, sizeof path, "%s/atom", scratch);
+    quiet_depth++; fd = (int) RAW(SYS_openat, AT_FDCWD, path, O_CREAT | O_RDWR | O_CLOEXEC, 0600); quiet_depth--;
+    at_park();
+    atom_begin(0);
+    rc = p2 == 1 ? uv_fs_stat(loop, r, path, p1 ? at_fs_cb : NULL) : p2 == 2 ? uv_fs_read(loop, r, fd, bufs, 6, 0, p1 ? at_fs_cb : NULL)
+                 : uv_fs_fsync(loop, r, fd, p1 ? at_fs_cb : NULL);
+    rc = atom_end(rc);
+    at_unpark();
+    if (rc < 0 || !p1) { uv_fs_req_cleanup(r); free(r); } else owed[Q_fs]++;
+    uv_run(loop, UV_RUN_DEFAULT);
+    RAW(SYS_close, fd);
+  } else if (!strcmp(op, "queue_work")) {
+    uv_work_t* w = NEW(uv_work_t);
+    at_park();
+    atom_begin(0);
+    rc = atom_end(uv_queue_work(loop, w, at_work, at_after));
+    at_unpark();
+    if (rc) free(w); else owed[Q_work]++;
+  } else if (!strcmp(op, "getaddrinfo")) {
+    uv_getaddrinfo_t* r = NEW(uv_getaddrinfo_t); struct addrinfo hints;
+    memset(&hints, 0, sizeof hints); hints.ai_family = AF_INET; hints.ai_flags = AI_NUMERICHOST | AI_NUMERICSERV;
+    at_park();
+    atom_begin(0);
+    rc = atom_end(uv_getaddrinfo(loop, r, at_gai_cb, "127.0.0.1", "80", &hints));
+    at_unpark();
+    if (rc) free(r); else owed[Q_gai]++;
+  } else if (!strcmp(op, "pipe_bind")) {
+    uv_pipe_t* a = NEW(uv_pipe_t); char path[300];
+    snprintf(path, sizeof path, "%s/bound", scratch);
+    uv_pipe_init(loop, a, 0);
+    atom_begin(0);
+    atom_end(uv_pipe_bind(a, path));
+  } else if (!strcmp(op, "spawn")) {        /* p1 = CREATE_PIPE containers, p2 = more than 8 containers (heap array) */
+    uv_process_options_t o; uv_stdio_container_t io[12]; char* args[] = { "/bin/true", NULL }; uv_process_t* pr = NEW(uv_process_t);
+    memset(&o, 0, sizeof o); memset(io, 0, sizeof io);
+    o.file = args[0]; o.args = args; o.exit_cb = at_exit_cb; o.stdio = io; o.stdio_count = p2 ? 10 : 3;
+    for (i = 0; i < o.stdio_count; i++) io[i].flags = UV_IGNORE;
+    for (i = 0; i < p1; i++) { uv_pipe_t* pp = NEW(uv_pipe_t); uv_pipe_init(loop, pp, 0); io[i].flags = UV_CREATE_PIPE | (i == 0 ? UV_READABLE_PIPE : UV_WRITABLE_PIPE); io[i].data.stream = (uv_stream_t*) pp; }
+    atom_begin(0);
+    rc = atom_end(uv_spawn(loop, pr, &o));
+    if (rc && uv_is_active((uv_handle_t*) pr)) VIOL("spawn-failed-active", "%s", "process handle active after uv_spawn failed");
+    if (rc == 0) { bail(); uv_run(loop, UV_RUN_DEFAULT); return; }
+  } else if (!strcmp(op, "fs_poll_start")) {
+    uv_fs_poll_t* h = NEW(uv_fs_poll_t);
+    uv_fs_poll_init(loop, h);
+    atom_begin(0);
+    rc = atom_end(uv_fs_poll_start(h, at_fp_cb, scratch, 1000));
+    if (rc && uv_is_active((uv_handle_t*) h)) VIOL("fs-poll-failed-active", "%s", "handle active after uv_fs_poll_start failed");
+  } else if (!strcmp(op, "fs_event_start")) {       /* p1 = the path is new to the loop */
+    uv_fs_event_t* h0 = NEW(uv_fs_event_t); uv_fs_event_t* h = NEW(uv_fs_event_t); char other[300];
+    snprintf(other, sizeof other, "%s/other", scratch);
+    quiet_depth++; mkdir(other, 0700); quiet_depth--;
+    uv_fs_event_init(loop, h0); uv_fs_event_init(loop, h);
+    uv_fs_event_start(h0, at_fe_cb, p1 ? other : scratch, 0);       /* creates the loop's inotify descriptor */
+    atom_begin(0);
+    rc = atom_end(uv_fs_event_start(h, at_fe_cb, scratch, 0));
+    if (rc && uv_is_active((uv_handle_t*) h)) VIOL("fs-event-failed-active", "%s", "handle active after uv_fs_event_start failed");
+  } else if (!strcmp(op, "environ")) {      /* p1 = number of entries */
+    uv_env_item_t* env; int n;
+    quiet_depth++; clearenv(); for (i = 0; i < p1; i++) { char nm[16]; snprintf(nm, sizeof nm, "V%d", i); setenv(nm, "x", 1); } quiet_depth--;
+    atom_begin(0);
+    rc = atom_end(uv_os_environ(&env, &n));
+    if (rc == 0) { if (n != p1) VIOL("environ-count", "count=%d expected %d", n, p1); uv_os_free_environ(env, n); }
+  } else {
+    OUT("bad-op unknown atom %s", op);
+    return;
+  }
+  bail();
+  uv_run(loop, UV_RUN_DEFAULT);
+}
+
 /* ------------------------------------------------------------------ runner */
 static const struct { const char* name; void (*fn)(void); } scenarios[] = {
   { "timers", sc_timers }, { "tcp", sc_tcp }, { "pipe", sc_pipe }, { "ipc", sc_ipc }, { "udp", sc_udp },
@@ -998,15 +1152,17 @@ static void atfork_child(void) { atomic_store(&armed, 0); }
 
 static int run_one(int argc, char** argv) {
   int i, s;
-  for (s = 0; scenarios[s].name; s++) if (!strcmp(scenarios[s].name, argv[0])) break;
-  if (!scenarios[s].name) { OUT("bad-op unknown scenario %s", argv[0]); return 2; }
+  void (*fn)(void) = NULL;
+  for (s = 0; scenarios[s].name; s++) if (!strcmp(scenarios[s].name, argv[0])) fn = scenarios[s].fn;
+  if (!strncmp(argv[0], "atom:", 5)) { atom_mode = 1; snprintf(atom_spec, sizeof atom_spec, "%s", argv[0] + 5); fn = sc_atom; }
+  if (fn == NULL) { OUT("bad-op unknown scenario %s", argv[0]); return 2; }
   for (i = 1; i < argc; i++) if (parse_fault(argv[i])) { OUT("bad-op fault %s", argv[i]); return 2; }
   allow_iouring = getenv("C16_IOURING") != NULL;
   if (uv_replace_allocator(c_malloc, c_realloc, c_calloc, c_free)) return 2;
   pthread_atfork(NULL, NULL, atfork_child);
   signal(SIGPIPE, SIG_IGN);
   prologue();
-  if (loop_inited) scenarios[s].fn();
+  if (loop_inited) fn();
   epilogue();
   return nviol ? 1 : 0;
 }
